@@ -484,7 +484,7 @@ def build_scenarios(ck):
         scs.append(json.load(open(fn)))
     sid = 1000
     # (a) random scenarios, fault free
-    for _ in range(ck.n(30, 500)):
+    for _ in range(ck.n(24, 500)):
         scs.append(gen_scenario(rng, sid, instances=None) if False else gen_scenario(rng, sid))
         sid += 1
     return scs, sid, rng
@@ -554,8 +554,8 @@ def run(ck: Check):
     for b, br in zip(bases, base_res):
         if not br.get("ok"):
             continue
-        f1, sid = enumerate_faults(b, br, sid, lambda api: RETRIABLE_FAULTS.get(api, []), rng, ck.n(120, 2500))
-        f2, sid = enumerate_faults(b, br, sid, lambda api: OTHER_FAULTS.get(api, []), rng, ck.n(40, 600))
+        f1, sid = enumerate_faults(b, br, sid, lambda api: RETRIABLE_FAULTS.get(api, []), rng, ck.n(80, 2500))
+        f2, sid = enumerate_faults(b, br, sid, lambda api: OTHER_FAULTS.get(api, []), rng, ck.n(30, 600))
         extra += f1 + f2
         # coordinator moves and loading windows at every transactional request
         for api in ("AddPartitionsToTxn", "AddOffsetsToTxn", "EndTxn", "TxnOffsetCommit"):
@@ -577,8 +577,8 @@ def run(ck: Check):
         # kill at every request of the instance (applied or lost), replacement instance afterwards
         nreq = br["instances"][0]["nreq"]
         ks = list(range(1, nreq + 1))
-        if len(ks) > ck.n(14, 60):
-            ks = sorted(rng.sample(ks, ck.n(14, 60)))
+        if len(ks) > ck.n(10, 60):
+            ks = sorted(rng.sample(ks, ck.n(10, 60)))
         for k in ks:
             for applied in (False, True):
                 sc = json.loads(json.dumps(b))
@@ -598,7 +598,7 @@ def run(ck: Check):
             number_offsets(sc)
             extra.append(sc)
     # ---- random multi-fault plans
-    for _ in range(ck.n(40, 2500)):
+    for _ in range(ck.n(30, 2500)):
         sc = gen_scenario(rng, sid)
         sid += 1
         for _f in range(rng.choice([1, 2, 3])):
